@@ -32,8 +32,8 @@ MAXCYCLES = 40000000   # cycle watchdog of the real run (>= 200 cycles per refer
 # running both sides
 # ------------------------------------------------------------------------------------------------
 
-def sem_line(sexp, data, files):
-    return f"{FUEL}|{data.hex() or '-'}|{files}|{sexp}"
+def sem_line(sexp, data, files, fuel=None):
+    return f"{fuel or FUEL}|{data.hex() or '-'}|{files}|{sexp}"
 
 
 def real_line(src, data, files, cmd="run"):
@@ -556,7 +556,8 @@ def run(tier, seed, replay=None):
     sample_i = next((i for i, (ref, _) in enumerate(results) if ref.startswith("ok ")), 0)
     rep.coverage.update({
         "explanation": "reference-semantics oracle (Lean X.run, executed natively) vs real xcmp->hexsim on generated "
-                       "well-defined X programs; no compiler-correctness theorem is claimed yet (DESIGN.md section 6 C01 stages)",
+                       "well-defined X programs of the whole language; Lean theorems Properties/C01.lean (stages 1-4, full statement for the "
+                       "class v2Ok) about the compiler model, which is compared with the real xcmp stage by stage",
         "evaluations": ndef, "generated_cases": len(cases), "programs": nprog, "programs_defined": nprog_def,
         "distinct_nontrivial": len(nontriv),
         "rule": "type- and initialisation-directed generator (runner/gen_x.py) x random inputs; a case counts when X.run is "
